@@ -319,6 +319,90 @@ def check(acc, kind, term, root_kind, backends=BACKENDS):
                       {"filter": to_odata(term), "backend": b, "kind": kind, "root": root_kind, "outcome": out, "detail": detail}, finding=finding)
 
 
+def null_list_terms():
+    """`null` and list literals in the operand positions where only a value of another kind makes sense; named parameters on built-ins.
+    Every backend must translate completely or refuse with a library exception (never leak AttributeError / TypeError / ArgumentError,
+    never write a Python repr or a Python list into the output)."""
+    n, s, x = typed.F("n"), typed.F("s"), typed.F("x")
+    one, two = T.Int(1), T.Int(2)
+    L12, L13 = T.lst(one, two), T.lst(one, T.Int(3))
+    out = []
+    for f in ("contains", "startswith", "endswith"):
+        out += [("null-arg", T.call(f, s, T.NULL)), ("null-arg", T.call(f, T.call("tolower", s), T.NULL)), ("null-arg", T.call(f, T.NULL, s)),
+                ("list-arg", T.call(f, T.Str("abc"), T.lst(s, T.Str("b")))), ("list-arg", T.call(f, T.call("tolower", s), T.lst(T.Str("a"), T.Str("b"))))]
+    out += [("null-arg", T.binop("Eq", T.call("length", T.NULL), one)), ("null-arg", T.binop("Eq", T.call("concat", s, T.NULL), s)),
+            ("null-arg", T.binop("Eq", T.call("indexof", s, T.NULL), one)), ("null-arg", T.binop("Eq", T.call("tolower", T.NULL), s)),
+            ("null-arg", T.binop("Eq", T.call("substring", s, T.NULL), s)), ("null-arg", T.binop("Eq", T.call("round", T.NULL), one)),
+            ("null-arith", T.binop("Eq", T.binop("Add", n, T.NULL), one))]
+    for op in ("Lt", "LtE", "Gt", "GtE"):
+        out += [("null-order", T.binop(op, n, T.NULL)), ("null-order", T.binop(op, T.NULL, n))]
+    out += [("null-in-list", T.binop("In", n, T.lst(one, T.NULL))), ("null-in-list", T.binop("In", s, T.lst(T.Str("a"), T.NULL))),
+            ("null-in-list", T.unop("Not", T.binop("In", n, T.lst(T.NULL))))]
+    out += [("list-operand", T.binop("Eq", L12, L12)), ("list-operand", T.binop("NotEq", L12, L12)), ("list-operand", T.binop("Lt", L12, L13)),
+            ("list-operand", T.binop("Or", T.binop("Eq", s, T.Str("zzz")), T.binop("Eq", L12, L12))), ("list-operand", T.unop("Not", T.binop("Eq", L12, L12))),
+            ("list-operand", T.binop("Eq", n, L12)), ("list-operand", T.binop("Eq", T.call("length", L12), two)),
+            ("list-operand", T.binop("Eq", T.call("tolower", T.lst(T.Str("a"))), s))]
+    out += [("named-builtin", T.binop("Eq", T.call("length", T.named("x", s)), one)), ("named-builtin", T.call("contains", T.named("a", s), T.named("b", T.Str("x")))),
+            ("named-builtin", T.binop("Eq", T.call("round", T.named("self", x)), one)), ("named-builtin", T.binop("Eq", T.call("length", T.named("arg", s)), one))]
+    return out
+
+
+def _null_list_unit(items):
+    django_h.setup()
+    acc = Acc()
+    for kind, t in items:
+        try:
+            _ps.parse(_lx.tokenize(to_odata(t)))
+        except Exception:  # noqa
+            acc.count("null_list_not_parseable")
+            continue
+        check(acc, kind, t, "scalar")
+    return acc
+
+
+def shared_visitor_layer(ctx):
+    """ONE visitor instance per backend translates: a filter it refuses, a filter it accepts, another refusal, another accepted one.
+    What it returns for the accepted filters must equal what a fresh visitor returns (a refusal must not leave state behind)."""
+    from odata_query.django.django_q import AstToDjangoQVisitor
+    from odata_query.sqlalchemy import AstToSqlAlchemyCoreVisitor, AstToSqlAlchemyOrmVisitor
+    DM, _ = django_h.scalar_model(("n", "s", "b"))
+    SM, _ = sa_h.scalar_model(("n", "s", "b"))
+    makers = {"standard": AstToSqlVisitor, "sqlite": AstToSqliteSqlVisitor, "athena": AstToAthenaSqlVisitor, "roundtrip": AstToODataVisitor,
+              "django": lambda: AstToDjangoQVisitor(DM), "sa-orm": lambda: AstToSqlAlchemyOrmVisitor(SM), "sa-core": lambda: AstToSqlAlchemyCoreVisitor(SM.__table__)}
+    refused = ["hassubset(s, (1,))", "ns.f(n) eq 1", "n gt null", "s/any(x: x eq 1) and zz.f()", "geography'POINT(1 2)' eq s"]
+    accepted = ["b", "n eq 1", "contains(s, 'a')", "not b", "n in (1, 2) or s eq null"]
+
+    def show(v):
+        return (type(v).__name__, str(v))
+
+    n = 0
+    for bname, mk in makers.items():
+        fresh = {}
+        for tx in accepted:
+            try:
+                fresh[tx] = show(mk().visit(_ps.parse(_lx.tokenize(tx))))
+            except Exception as e:  # noqa
+                fresh[tx] = ("EXC", type(e).__name__)
+        for order in (0, 1):
+            vis = mk()
+            seq = [x_ for pair in zip(refused, accepted) for x_ in pair]
+            if order:
+                seq = seq[::-1]
+            for tx in seq:
+                n += 1
+                ctx.count("executions")
+                ctx.count("states")
+                try:
+                    got = show(vis.visit(_ps.parse(_lx.tokenize(tx))))
+                except Exception as e:  # noqa
+                    got = ("EXC", type(e).__name__)
+                if tx in fresh and got != fresh[tx]:
+                    ctx.violation("%s:shared-visitor-after-refusal" % bname, {"filter": tx, "backend": bname, "kind": "shared-visitor", "sequence": seq,
+                                                                             "expected": list(fresh[tx]), "observed": list(got)})
+                    break
+    return n
+
+
 def history_layer(ctx):
     """serial, ONE process: every built-in call shape with its namespaced twins adjacent (f, geo.f, ns.f, f again), through every
     backend, forward and in reverse order. A refusal or translation must not depend on which calls the same visitor CLASS has
@@ -374,6 +458,29 @@ def _exotic_unit(items):
             continue
         check(acc, kind if kind in ("path", "lambda") else "exotic:" + kind, t, "relational")
     return acc
+
+
+def q_keyword_names(ctx):
+    """Django: a field called like a keyword argument of Q() itself. The model has no such field: the filter must fail, not be
+    accepted with the field silently dropped (an empty Q selects every row)."""
+    from odata_query.django import apply_odata_query
+    M, _ = django_h.scalar_model(("n",))
+    for nm in ("_negated", "_connector"):
+        for text in (nm, "not " + nm, nm + " eq true", "not %s or n eq 1" % nm):
+            ctx.count("executions")
+            ctx.count("states")
+            try:
+                qs = apply_odata_query(M.objects.all(), text)
+                sql = str(qs.query)
+                out = "accepted" if nm not in sql else "translated"
+            except exceptions.ODataException as e:
+                out = "lib:" + type(e).__name__
+            except Exception as e:  # noqa  (Django's own FieldError for an unknown field is how this backend reports one)
+                out = "django:" + type(e).__name__
+            ctx.outcome(("q-keyword", out))
+            if out == "accepted" or out in ("django:ValueError", "django:TypeError"):
+                ctx.violation("django:q-keyword-field:%s" % out, {"filter": text, "backend": "django", "kind": "q-keyword", "outcome": out, "field": nm,
+                                                                 "expected": "the field in the SQL, or an unknown-field error"})
 
 
 def unknown_fields(ctx):
@@ -436,6 +543,15 @@ def run(ctx):
     ctx.layer("exotic-kinds-in-every-position", terms=int(ctx.counts["states"] - before), exhaustive=True)
     unknown_fields(ctx)
     ctx.layer("unknown-fields", names=len(ADVERSARIAL_NAMES), exhaustive=True)
+    before = ctx.counts["states"]
+    nl = null_list_terms()
+    ctx.pmap(_null_list_unit, [nl[i::16] for i in range(16)])
+    ctx.layer("null-and-list-operands", terms=int(ctx.counts["states"] - before), exhaustive=True,
+              note="null as a function argument / ordering operand / list element, list literals as comparison operands and arguments, named parameters on built-ins")
+    nsv = shared_visitor_layer(ctx)
+    ctx.layer("shared-visitor-after-refusal", visits=nsv, exhaustive=True)
+    q_keyword_names(ctx)
+    ctx.layer("django-q-keyword-names", names=2, exhaustive=True)
     nh = history_layer(ctx)
     ctx.layer("history-forward-reverse", cases=nh, exhaustive=True)
     if not ctx.quick:
